@@ -176,6 +176,16 @@ struct Extractor {
       if (FD->isDeleted()) J.attribute("deleted", true);
       if (const FunctionDecl *P = FD->getTemplateInstantiationPattern())
         J.attribute("pid", id(P->getCanonicalDecl()));
+      if (const auto *TA = FD->getTemplateSpecializationArgs()) {
+        // first template argument only (index-like arguments: std::get<I>, reduce_value<I,...>)
+        if (TA->size() > 0) {
+          std::string S;
+          llvm::raw_string_ostream OS(S);
+          TA->get(0).print(PP, OS, true);
+          OS.flush();
+          if (S.size() < 64) J.attribute("ta0", S);
+        }
+      }
       if (const auto *MD = dyn_cast<CXXMethodDecl>(FD)) {
         J.attribute("parent", qname(MD->getParent()));
         J.attribute("pname", MD->getParent()->getNameAsString());
